@@ -175,10 +175,11 @@ def replicat_writes_ref_reads(cfg_i, tree_i, chunking_i, conc, overlap=False):
         return True, ''
 
 
-def ref_writes_replicat_restores(cfg_i, tree_i, legacy, chunk_i):
+def ref_writes_replicat_restores(cfg_i, tree_i, legacy, chunk_i, json_style=0):
     cfg = CFG[cfg_i]
-    files = {f'/orig/dir{i % 2}/f{i}.bin': world.content(0, i, n) for i, n in enumerate(TREES[tree_i])}
-    objs, key_json, expected = RF.write_repository(files, encrypted=cfg['encrypted'], cipher=cfg.get('cipher'), hashing=cfg.get('hashing'),
+    # (one name with non-ASCII characters: escaped or raw UTF-8 in the JSON depending on the writer's style)
+    files = {(f'/orig/dir{i % 2}/f{i}.bin' if i != 1 else '/orig/dir1/f1-\u00e9\u4e2d.bin'): world.content(0, i, n) for i, n in enumerate(TREES[tree_i])}
+    objs, key_json, expected = RF.write_repository(files, json_style=json_style, encrypted=cfg['encrypted'], cipher=cfg.get('cipher'), hashing=cfg.get('hashing'),
                                                    legacy_metadata=bool(legacy), chunk=[5, 8, 3][chunk_i])
     with world.scratch('c14r') as d:
         be = rt.MemBackend(objs)
@@ -227,8 +228,9 @@ def e_read(k: int) -> bool:
     """
     ci, ti, legacy, chi = digits(k, [6, 8, 2, 3])
     with NoTracing():
-        ok, msg = ref_writes_replicat_restores(ci, ti, legacy, chi)
-        tick('e_read', [ci, ti, legacy, chi])
+        style = (ci + ti + chi) % 2
+        ok, msg = ref_writes_replicat_restores(ci, ti, legacy, chi, style)
+        tick('e_read', [ci, ti, legacy, chi, style])
         if not ok:
             _say(ci, TREES[ti], legacy, chi, msg)
         return ok
